@@ -30,8 +30,8 @@ def run_playback(repo_dir, crate, scratch, name_filter, timeout=1200):
     cmd = ["cargo", "kani", "playback", "-Z", "concrete-playback", "--features", "verif_native", "--lib",
            "--", name_filter, "--test-threads", "1"]
     p = subprocess.run(cmd, cwd=os.path.join(repo_dir, crate), env=env, stdout=subprocess.PIPE,
-                       stderr=subprocess.STDOUT, text=True, timeout=timeout)
-    return p.stdout
+                       stderr=subprocess.STDOUT, timeout=timeout)
+    return p.stdout.decode(errors="replace")
 
 
 def _native_verdicts(scratch, r, prop, tests, repo_dir, log):
